@@ -1,0 +1,49 @@
+// SPDX-FileCopyrightText: 2026 The Pion community <https://pion.ly>
+// SPDX-License-Identifier: MIT
+
+//go:build verif
+
+package twcc
+
+// Machine-checked contracts (comment-only; read by /verif/govc, never compiled into a normal build).
+//
+// ---- header extension interceptor (property C15): the writer returned by BindLocalStream
+//
+//@ func (*HeaderExtensionInterceptor).BindLocalStream$1
+//@   requires id: hdrExtID != 0
+//@   modifies h.nextSequenceNr, header.Extension, header.ExtensionProfile, header.Extensions, *
+//@   ensures one_fetch_add: h.nextSequenceNr == old(h.nextSequenceNr) + 1
+//@   ensures allocations: calls("atomic.AddUint32") == 1
+//@   ensures at_most_one_write: calls("writer.Write") <= 1
+//@   ensures nil_header_rejected: header == nil ==> result1 != nil && calls("writer.Write") == 0
+//@   ensures forwarded_or_error: calls("writer.Write") == 0 ==> result1 != nil
+//@   ensures same_packet: calls("writer.Write") == 1 ==> callarg("writer.Write", 0) == header && callarg("writer.Write", 1) == payload && callarg("writer.Write", 2) == attributes
+//@   ensures result_passthrough: calls("writer.Write") == 1 ==> result0 == callres("writer.Write", 0) && result1 == callres("writer.Write", 1)
+//@   ensures seq_used_is_allocated: calls("SetExtension") == 1 ==> len(callarg("SetExtension", 2)) == 2
+//@        && atcall("SetExtension", callarg("SetExtension", 2)[0]) == uint8(uint16(old(h.nextSequenceNr)) >> 8)
+//@        && atcall("SetExtension", callarg("SetExtension", 2)[1]) == uint8(old(h.nextSequenceNr))
+//@   ensures ext_id: calls("SetExtension") == 1 ==> callarg("SetExtension", 1) == hdrExtID && callarg("SetExtension", 0) == header
+//@   ensures set_before_write: calls("writer.Write") == 1 ==> calls("SetExtension") == 1
+//@   ensures payload_untouched: calls("writer.Write") == 1 ==> forall k int :: 0 <= k && k < len(payload) ==> atcall("writer.Write", payload[k]) == old(payload[k])
+//@   ensures header_fields_untouched: calls("writer.Write") == 1 ==> atcall("writer.Write", header.SequenceNumber) == old(header.SequenceNumber)
+//@        && atcall("writer.Write", header.Timestamp) == old(header.Timestamp) && atcall("writer.Write", header.SSRC) == old(header.SSRC)
+//@        && atcall("writer.Write", header.PayloadType) == old(header.PayloadType) && atcall("writer.Write", header.Marker) == old(header.Marker)
+//@        && atcall("writer.Write", header.Version) == old(header.Version) && atcall("writer.Write", header.Padding) == old(header.Padding)
+//@        && atcall("writer.Write", header.CSRC) == old(header.CSRC) && atcall("writer.Write", header.PaddingSize) == old(header.PaddingSize)
+//@
+//@ func (*HeaderExtensionInterceptor).BindLocalStream
+//@   requires info: info != nil
+//@   modifies nothing
+//@   ensures untouched_if_not_negotiated: (forall j int :: 0 <= j && j < len(info.RTPHeaderExtensions) ==> info.RTPHeaderExtensions[j].URI != transportCCURI) ==> result == writer
+//@   ensures wraps_if_negotiated: result != writer ==> isclosure(result, "BindLocalStream$1") && binding("BindLocalStream$1", "writer") == writer
+//@        && binding("BindLocalStream$1", "h") == h && binding("BindLocalStream$1", "hdrExtID") != 0
+//@   ensures uses_negotiated_id: result != writer ==> exists j int :: 0 <= j && j < len(info.RTPHeaderExtensions) && info.RTPHeaderExtensions[j].URI == transportCCURI
+//@        && binding("BindLocalStream$1", "hdrExtID") == uint8(info.RTPHeaderExtensions[j].ID)
+//@        && (forall k int :: 0 <= k && k < j ==> info.RTPHeaderExtensions[k].URI != transportCCURI)
+//@   loop 1 invariant none_yet: hdrExtID == 0 && -1 <= rangeindex && rangeindex < len(info.RTPHeaderExtensions) && (forall j int :: 0 <= j && j <= rangeindex ==> info.RTPHeaderExtensions[j].URI != transportCCURI)
+//@   loop 1 decreases len(info.RTPHeaderExtensions) - rangeindex
+//@
+//@ # n successive allocations c, c+1, ... (32-bit counter) give pairwise distinct 16-bit transport sequence numbers
+//@ # as long as fewer than 2^16 lie between them, and consecutive ones differ by exactly one modulo 2^16.
+//@ lemma twcc_numbers_distinct: forall c uint32, i uint32, j uint32 :: i < j && j - i < 65536 ==> uint16(c + i) != uint16(c + j)
+//@ lemma twcc_numbers_consecutive: forall c uint32 :: uint16(c + 1) == uint16(c) + 1
